@@ -19,6 +19,7 @@ from ..common.logger import resonaateLogError, resonaateLogWarning
 from ..physics.bodies import Earth
 from .dynamics_base import Dynamics, DynamicsErrorFlag
 from .integration_events.finite_thrust import ScheduledFiniteThrust
+from .integration_events.scheduled_impulse import ScheduledImpulse
 
 # Type Checking Imports
 if TYPE_CHECKING:
@@ -136,6 +137,29 @@ class Celestial(Dynamics, metaclass=ABCMeta):
 
         return current_state
 
+    @staticmethod
+    def _dropAppliedImpulses(
+        t_events: ndarray,
+        events: list[ScheduledEventType],
+    ) -> list[ScheduledEventType]:
+        r"""Remove scheduled impulses that just stopped integration from the event functions.
+
+        An impulse takes place once. Integration resumes one ULP after the time it was applied, where
+        its event function can still be within floating point error of zero, so it would fire again.
+
+        Args:
+            t_events (``ndarray``): times of events that occurred during integration.
+            events (``list``): event functions that are ``Callable`` of the form :math:`g(t, y) = 0`.
+
+        Returns:
+            ``list``: event functions still to be monitored when integration resumes.
+        """
+        return [
+            event
+            for event_index, event in enumerate(events)
+            if not (isinstance(event, ScheduledImpulse) and t_events[event_index].size > 0)
+        ]
+
     def propagate(
         self,
         initial_time: ScenarioTime | float,
@@ -198,6 +222,7 @@ class Celestial(Dynamics, metaclass=ABCMeta):
                 events,
                 initial_state,
             )
+            events = self._dropAppliedImpulses(solution.t_events, events)
 
             # Retrieve final time, this should auto-exit the loop if fully-integrated
             initial_time = solution.t[-1] + spacing(solution.t[-1])
@@ -301,6 +326,7 @@ class Celestial(Dynamics, metaclass=ABCMeta):
                     # [TODO]: Make this more robust. What about multiple events?
                     current_state=solution.y_events[0].reshape(state_shape),
                 )
+                events = self._dropAppliedImpulses(solution.t_events, events)
 
                 # Properly copies updated state back into full state vector for when
                 # an event occurs on a `times`
